@@ -71,6 +71,7 @@ func c11Space(d scopeSpaceDef) *core.Space {
 				r.Nontrivial++
 			}
 			doneFresh := map[string]bool{}
+			var later []func()
 			for _, o := range c.Bind.Occs {
 				or := rng(c.Text, o.Span)
 				if o.Decl < 0 && len(c.globalDefs(o.Name)) == 0 {
@@ -207,38 +208,45 @@ func c11Space(d scopeSpaceDef) *core.Space {
 					key := fmt.Sprint(o.Decl, o.Name, newName)
 					if newName == "zz" && !doneFresh[key] {
 						doneFresh[key] = true
-						root2 := drv.NewWorkspace(newFiles)
-						s2, err := drv.Start(root2, drv.Options{InitOptions: drv.AllChecks()})
-						if err == nil {
-							s2.Open("m.lua", newFiles["m.lua"])
-							got := s2.DiagView()
-							s2.Close()
-							r.Transitions += 2
-							norm := func(v string) string {
-								// positions after a renamed occurrence on the same line shift by the length difference: compare types and lines only
-								var out []string
-								for _, l := range strings.Split(v, "\n") {
-									if l == "" {
-										continue
+						// run once the server under test is closed: two live servers in one process disturb each other
+						later = append(later, func() {
+							root2 := drv.NewWorkspace(newFiles)
+							s2, err := drv.Start(root2, drv.Options{InitOptions: drv.AllChecks()})
+							if err == nil {
+								s2.Open("m.lua", newFiles["m.lua"])
+								got := s2.DiagView()
+								s2.Close()
+								r.Transitions += 2
+								norm := func(v string) string {
+									// positions after a renamed occurrence on the same line shift by the length difference: compare types and lines only
+									var out []string
+									for _, l := range strings.Split(v, "\n") {
+										if l == "" {
+											continue
+										}
+										file := l[:strings.Index(l, ":")]
+										for _, dg := range strings.Split(l[strings.Index(l, ":")+2:], " ; ") {
+											t := dg[:strings.Index(dg, "@")]
+											ln := dg[strings.Index(dg, "@")+1:]
+											ln = ln[:strings.Index(ln, ":")]
+											out = append(out, file+":"+t+"@"+ln)
+										}
 									}
-									file := l[:strings.Index(l, ":")]
-									for _, dg := range strings.Split(l[strings.Index(l, ":")+2:], " ; ") {
-										t := dg[:strings.Index(dg, "@")]
-										ln := dg[strings.Index(dg, "@")+1:]
-										ln = ln[:strings.Index(ln, ":")]
-										out = append(out, file+":"+t+"@"+ln)
-									}
+									sort.Strings(out)
+									return strings.Join(out, " ")
 								}
-								sort.Strings(out)
-								return strings.Join(out, " ")
+								if norm(got) != norm(baseDiags) {
+									fail("diagnostics-change-after-rename", map[string]interface{}{"before": baseDiags, "after": got, "renamed_files": newFiles})
+								}
 							}
-							if norm(got) != norm(baseDiags) {
-								fail("diagnostics-change-after-rename", map[string]interface{}{"before": baseDiags, "after": got, "renamed_files": newFiles})
-							}
-						}
-						drv.RemoveWorkspace(root2)
+							drv.RemoveWorkspace(root2)
+						})
 					}
 				}
+			}
+			s.Close()
+			for _, f := range later {
+				f()
 			}
 			if i%499 == 0 {
 				r.Sample(map[string]interface{}{"m.lua": c.Text, "occurrences": len(c.Bind.Occs)})
